@@ -191,7 +191,8 @@ class Ctx:
         drv = [self.drv()] + list(drv_args)
         t = time.time()
         e1 = dict(os.environ)
-        e1.setdefault("JAVA_TOOL_OPTIONS", "-Xss256m -Xmx6g")
+        # (the large closures of the thorough tier keep their unexplored states on a queue that 6 GB cannot hold)
+        e1.setdefault("JAVA_TOOL_OPTIONS", "-Xss256m -Xmx%s" % ("6g" if self.quick() else "20g"))
         p1 = subprocess.Popen(cmd, cwd=d, stdout=subprocess.PIPE, stderr=subprocess.STDOUT, env=e1)
         p2 = subprocess.Popen(drv, stdin=p1.stdout, stdout=subprocess.PIPE, stderr=subprocess.STDOUT, text=True, env=self.go_env())
         p1.stdout.close()
